@@ -798,7 +798,7 @@ class Exec:
         self.emit_event('continue', node=st)
         if self.loop_stack and self.loop_stack[-1]['frame'] is self.frame:
             rec = self.loop_stack[-1]
-            rec['continues'].append((self.pc[len(rec['pc']):], dict(self.frame.vars)))
+            rec['continues'].append((self.pc[rec['body_pc']:], dict(self.frame.vars)))
         return FALSE
 
     def st_Assert(self, st):
@@ -924,6 +924,7 @@ class Exec:
         entry_pc, entry_ctx = self.pc, self.ctx
         before = dict(fr.vars)
         self.ctx = entry_ctx + (('loop', L),)
+        rec['body_pc'] = len(self.pc)
         if kind == 'for':
             self.assign(st.target, rec['elem'], st)
             ft = self.block(st.body)
@@ -931,6 +932,7 @@ class Exec:
             c = self.eval_cond(st.test)
             rec['cond'] = c
             self.pc = entry_pc + (c,)
+            rec['body_pc'] = len(self.pc)        # (inside the body the loop condition holds: not part of a `continue`'s condition)
             ft = self.block(st.body)
         rec['body_ft'] = ft
         self.loop_stack.pop()
